@@ -7,12 +7,18 @@
      control/dns_control.go                 HandleWithResponseWriter_ (route first; reject clears the cache family and
                                             answers empty; cache lookup; miss -> dialSend), dialSend (depth check,
                                             response routing, accept / empty / re-ask with invokingDepth+1)
+     component/dns/request_rule_split.go    classifyRequestRule, SplitRequestRules (bottom of this file)
+     component/dns/routing_program.go       NewNormalizedRequestRoutingProgram (the split feeding dns.New)
+     component/daedns/router.go, client.go  NewWithOption (split, request matcher, compileMatcher for sub/node/subnode
+                                            rules, predicates), Match*Upstream, Wrap*Dialer's choice, selectUpstream,
+                                            resolvingDialer.lookupIPAddr / lookupControlIPAddr (which resolver is asked)
    The two matchers are the same code up to the registered functions and the sentinel names; the model is written once
    with a `side` switch.
    Not modelled (other properties): the optimizers run by dns.New before lowering (C04); the domain matcher (C11: its
    bitmap is a parameter) and the CIDR trie behind ipSet[i].HasPrefix (C12: containment is computed on the 128-bit
    values); cache expiry / TTL / LRU (C08: entries are live); upstream initialisation errors; outbound parameters on
-   DNS rule targets; uint16 wrap of the ip-set counter above 65535 sets. *)
+   DNS rule targets; in daedns: the wire exchange with the chosen resolver, the per-family (A/AAAA) aggregation of
+   LookupIPAddr and its fall-through when the chosen resolver returns nothing, regexp2 (oracle: m_hits). *)
 From Coq Require Import List NArith Bool String Ascii.
 From Dae Require Import C07_Spec.
 From Dae.gen Require Import C07_Consts.
@@ -120,12 +126,12 @@ Fixpoint add_upstream (ups : list string) (b : builder) (neg : bool) (vals : lis
     end
   end.
 
-(* addIp (response only): one match-set, Value = index of the new trie *)
+(* addIp (response only): one match-set, Value = uint16(len(b.ipSet)), the index of the new trie truncated to 16 bits *)
 Definition add_ip (ups : list string) (b : builder) (neg : bool) (ps : list prefix) (upname : string) : res builder :=
   match upstream_to_id Response ups upname with
   | Err e => Err e
   | Ok id =>
-    Ok {| b_rules := b_rules b ++ [{| m_type := MatchType_IpSet; m_value := N.of_nat (List.length (b_ipsets b)); m_not := neg; m_up := id |}];
+    Ok {| b_rules := b_rules b ++ [{| m_type := MatchType_IpSet; m_value := N.of_nat (List.length (b_ipsets b)) mod 65536; m_not := neg; m_up := id |}];
           b_domsets := b_domsets b;
           b_ipsets := b_ipsets b ++ [ps] |}
   end.
